@@ -371,10 +371,10 @@ theorem mkTableDirect_inv (a : CtorArgs) (specs : List FieldSpec) (ha : a.fields
 (`direct`), printed, re-formatted with any string, re-constructed from any string, or built with
 `fmt_obj=` from the format of any other reachable table with the same fields (`fromObj`: siblings
 made from one format object, with their own records, header, footer, limits and skipped columns);
-`setLimitsFresh`, `removeFresh`: `table.fmt.set_limits(…)` / `table.remove_columns(names)` on a table whose
-widths are not negotiated. (Changing the limits
-of, or removing columns from, a *printed* table is left out on purpose: the widths stay as negotiated for
-the rows that were visible before, and feeding the format back re-negotiates them — see the report.) -/
+`setLimits`: `table.fmt.set_limits(…)` in any state (it forgets the flag and the widths);
+`removeFresh`: `table.remove_columns(names)` on a table whose widths are not negotiated. (Removing
+columns from a *printed* table is left out on purpose: the widths stay as negotiated for the rows that
+were visible with the removed break-by column — see the report.) -/
 inductive Reach : CtorArgs → Tbl → Prop where
   | new (a : CtorArgs) (t : Tbl) : mkTable a = .ok t → Reach a t
   | direct (a : CtorArgs) (cs : List ColSpec) (lims : Option Int × Option Int) (t : Tbl) :
@@ -383,8 +383,7 @@ inductive Reach : CtorArgs → Tbl → Prop where
   | set (a : CtorArgs) (t t' : Tbl) (s : List Char) : Reach a t → applySetter t s = .ok t' → Reach a t'
   | ctor (a : CtorArgs) (t t' : Tbl) (s : List Char) : Reach a t →
       mkTable { a with fmt := some s, limits := Option.none, skip := Option.none } = .ok t' → Reach a t'
-  | setLimitsFresh (a : CtorArgs) (t : Tbl) (x y : Option Int) : Reach a t →
-      (∀ c ∈ t.fmt.cols, c.width = Option.none) → Reach a (setLimits t x y)
+  | setLimits (a : CtorArgs) (t : Tbl) (x y : Option Int) : Reach a t → Reach a (setLimits t x y)
   | removeFresh (a : CtorArgs) (t : Tbl) (names : List (List Char)) : Reach a t →
       (∀ c ∈ t.fmt.cols, c.width = Option.none) → t.fmt.anySkipped = Option.none → Reach a (removeCols t names)
   | fromObj (b a : CtorArgs) (u : Tbl) (lims : Option (Option Int × Option Int))
@@ -402,10 +401,17 @@ theorem reach_inv (a : CtorArgs) (specs : List FieldSpec) (ha : a.fields = some 
     exact inv_congr_args a { a with fmt := some s, limits := Option.none, skip := Option.none } specs t'
       (mkTable_inv { a with fmt := some s, limits := Option.none, skip := Option.none } specs ha t' hm)
       rfl rfl rfl
-  | setLimitsFresh a t x y _ hw ih =>
+  | setLimits a t x y _ ih =>
     have hi := ih ha
-    exact ⟨hi.nodup, hi.records_eq, hi.header_eq, hi.footer_eq, hi.fields_eq, hi.colsOk,
-      widthsFaithful_of_fresh _ hw, skipFaithful_of_none _ rfl⟩
+    have hmem : ∀ c ∈ (setLimits t x y).fmt.cols, ∃ c0 ∈ t.fmt.cols, c = { c0 with width := Option.none } := by
+      intro c hc
+      simp only [setLimits, List.mem_map] at hc
+      obtain ⟨c0, hc0, rfl⟩ := hc
+      exact ⟨c0, hc0, rfl⟩
+    exact ⟨hi.nodup, hi.records_eq, hi.header_eq, hi.footer_eq, hi.fields_eq,
+      fun c hc => by obtain ⟨c0, hc0, rfl⟩ := hmem c hc; exact hi.colsOk c0 hc0,
+      widthsFaithful_of_fresh _ (fun c hc => by obtain ⟨c0, _, rfl⟩ := hmem c hc; rfl),
+      skipFaithful_of_none _ rfl⟩
   | removeFresh a t names _ hw hs ih =>
     have hi := ih ha
     have hsub : ∀ c ∈ (removeCols t names).fmt.cols, c ∈ t.fmt.cols := by
